@@ -1,5 +1,6 @@
 //! L2 harnesses on session/mod.rs: operation handle status (C18), publish gate (C06).
 use super::*;
+use crate::mqtt_client::outbound::verif_outbound::{any_state, set_release_state, set_retained_state};
 use crate::mqtt_client::Op;
 use crate::{Buffers, ConfigBuilder, ReasonCode};
 
@@ -14,7 +15,7 @@ fn any_kind() -> OpKind {
 
 // @harness props=C18,C05 tier=quick layer=L2
 // @harness funcs="Session::status, is_pending, is_complete, is_invalidated, Outbound::has_retained, has_pending_release"
-// @harness sym="operation kind (4), handle id (u16), handle generation (u32), session generation (u32)" bounds="session with one retained id (5) and one id awaiting PUBCOMP (6)"
+// @harness sym="operation kind (4), handle id (u16), handle generation (u32), send state of both in-flight entries" bounds="session with one retained id (5) and one id awaiting PUBCOMP (6)"
 #[kani::proof]
 #[kani::unwind(4)]
 fn c18_status_table() {
@@ -23,6 +24,10 @@ fn c18_status_table() {
     let mut session = Session::new(ConfigBuilder::new(Buffers::new(&mut rx, &mut tx)));
     session.data.outbound.retain_packet(5, 0, 2).unwrap();
     session.data.outbound.queue_release(6, ReasonCode::Success).unwrap();
+    // whether the PUBLISH / PUBREL is still to be written, partly written or on the wire must not
+    // matter: only the final acknowledgement completes the operation
+    set_retained_state(&mut session.data.outbound, 0, any_state(2));
+    set_release_state(&mut session.data.outbound, 0, any_state(4));
     let g: u32 = kani::any();
     // the generation counter is private to state.rs; advance it through reset() is too slow for a
     // symbolic value, so the handle generation is compared against the current one
